@@ -52,7 +52,8 @@ def _atoms(prefix, resname, n, resid=1):
 DSPEC = {   # letter -> molecule name, start atoms, end atoms
     'P': ('PMOL', _atoms('A', 'PCG', 2), _atoms('C', 'PAA', 5)),
     # same residue name in both resolutions, different size
-    'Q': ('QMOL', _atoms('B', 'QRS', 3), _atoms('D', 'QRS', 7)),
+    # (for Q the START resolution is the finer one: 7 atoms -> 3)
+    'Q': ('QMOL', _atoms('B', 'QRS', 7), _atoms('D', 'QRS', 3)),
     # two residues in both resolutions
     'R': ('RMOL', _atoms('E', 'RCA', 1) + _atoms('F', 'RCB', 2, 2),
           _atoms('G', 'RAA', 3) + _atoms('H', 'RAB', 4, 2)),
@@ -420,6 +421,9 @@ class C20(Check):
         for sp in (['BMIM', 'BF4'], ['BF4']):
             u.append({'k': 'diff', 'cases': [{'k': 'diff', 'species': list(sp), 'scale': None, 'out': 'given',
                                              'npseed': 0, 'renamed_end': 1}]})
+        for sp in (['BMIM', 'BF4'], ['BF4']):
+            u.append({'k': 'diff', 'cases': [{'k': 'diff', 'species': list(sp), 'scale': None, 'out': 'default_symlink',
+                                             'npseed': 0}]})
         # a second run from the same process after an end-coordinate file was replaced under the same path
         for sp in (['BMIM', 'BF4'], ['BMIM']):
             for o in ('given', 'default'):
@@ -478,6 +482,9 @@ class C20(Check):
                         cs.append({'k': 'main', 'E': list(E), 'X': list(X), 'kmax': kmax})
                         if E:
                             cs.append({'k': 'main', 'E': list(E), 'X': list(X), 'kmax': kmax, 'spell': 1})
+                            # --exclude names a species that is ALSO given explicitly: exclusion is about what the
+                            # discovery finds (the tool's help says so); the explicit triple is mapped all the same
+                            cs.append({'k': 'main', 'E': list(E), 'X': list(X) + [E[0]], 'kmax': kmax})
                 u.append({'k': 'main', 'cases': cs})
         # one directory per species, the three files called the same in each (P/cg.itp, Q/cg.itp, ...): every subset given
         # explicitly, every order of the candidate list
@@ -550,7 +557,14 @@ class C20(Check):
                         gl[k] = gl[k][:20] + ''.join('%8.3f' % (1.0 + 1.25 * (v - 1.0)) for v in xyz) + gl[k][44:]
                     with open(path, 'w') as fh:
                         fh.write('\n'.join(gl))
-                argv = ['gaddlemaps', p(SYS_A)]
+                sys_in = p(SYS_A)
+                if case['out'] == 'default_symlink':
+                    # the input is a symbolic link (another name, another folder) to the coordinate file
+                    os.makedirs(os.path.join(top, 'linked'), exist_ok=True)
+                    sys_in = os.path.join(top, 'linked', 'frame.gro')
+                    if not os.path.lexists(sys_in):
+                        os.symlink(os.path.join(d, SYS_A), sys_in)
+                argv = ['gaddlemaps', sys_in]
                 for s in case['species']:
                     argv += ['--mol'] + [p(f) for f in triples[s]]
                 if case['scale'] is not None:
@@ -566,6 +580,8 @@ class C20(Check):
                     os.makedirs(workdir, exist_ok=True)
                     expected = os.path.join(workdir, 'rel_out.gro')
                     argv += ['-o', 'rel_out.gro']
+                elif case['out'] == 'default_symlink':
+                    expected = os.path.join(top, 'linked', 'mapped_frame.gro')       # beside the INPUT, named after it
                 else:
                     expected = os.path.join(d, 'mapped_' + SYS_A)
 
@@ -870,15 +886,15 @@ class C20(Check):
                 args = calls[0].arguments
                 got = sorted(tuple(os.path.basename(str(x)) for x in sp) for sp in args.get('species', ()))
                 want = sorted(tuple(os.path.basename(x) for x in triple(d, s))
-                              for s in DISCOVERABLE if s not in X)
+                              for s in DISCOVERABLE if s not in X or s in E)
                 R.case(desc, nontrivial=len(E) < 3, cls=cls, outcome=f'handed:{len(got)}')
                 if got != want:
                     counts = {s: sum(1 for g in got if g[:1] == (fname(s, '_cg.itp'),)) for s in DISCOVERABLE}
-                    if any(counts[s] for s in X):
+                    if any(counts[s] for s in X if s not in E):
                         sig = 'main/excluded-species-mapped'
                     elif any(counts[s] > 1 for s in DISCOVERABLE):
                         sig = 'main/species-handed-more-than-once'
-                    elif any(counts[s] == 0 for s in DISCOVERABLE if s not in X):
+                    elif any(counts[s] == 0 for s in DISCOVERABLE if s not in X or s in E):
                         sig = 'main/species-missing-from-mapping'
                     else:
                         sig = 'main/wrong-file-triple'
